@@ -197,6 +197,51 @@ def oracle_fetch(case: Dict[str, Any], obs: Dict[str, Any]) -> Optional[str]:
     return None
 
 
+def oracle_linker(case: Dict[str, Any], obs: Dict[str, Any]) -> Optional[str]:
+    """C17 on a documented project with remote inventories loaded: loading survives (oracle_fetch on the bytes that were
+    loaded), and every usable canonical line whose name is not an object of the project itself resolves through the
+    docstring linker of every object asked -- look_for_intersphinx and the cross reference resolution -- to the
+    base/location of that line."""
+    if obs.get('build_exc'):
+        return 'building the project raised ' + obs['build_exc']
+    fc = {'k': 'fetch', 'fetches': [[u, d] for (u, _), d in zip(case['fetches'], obs['data'])], 'queries': case.get('queries', [])}
+    msg = oracle_fetch(fc, obs)
+    if msg:
+        return msg
+    local = set(obs['local'])
+    want = dict((n, u) for n, u in obs['answers'])
+    # names whose line is in the plain canonical form: what the inventory says, independently of getLink
+    certain: Dict[str, Optional[str]] = {}
+    for (u, _), d in zip(case['fetches'], obs['data']):
+        if d is None or '/' not in u:
+            continue
+        base = u[:u.rindex('/')]
+        try:
+            text = zlib.decompress(strip_comment_lines(bytes.fromhex(d))).decode('utf-8')
+        except Exception:  # noqa
+            continue
+        for line in text.splitlines():
+            m = CANON.fullmatch(line)
+            if m:
+                loc = m.group(4)
+                certain[m.group(1)] = base + '/' + (loc[:-1] + m.group(1) if loc.endswith('$') else loc)
+            else:
+                pieces = line.split(' ')
+                for k in range(1, len(pieces)):
+                    certain[' '.join(pieces[:k])] = None
+    for f, n, look, kind, val, expanded in obs['lookups']:
+        exp = certain.get(n)
+        if exp is None or n in local:
+            continue
+        if look != exp:
+            return ('from %r: look_for_intersphinx(%r) = %r, the loaded inventory says %r (root names of the project: %r)'
+                    % (f, n, look, exp, obs['root_names']))
+        if expanded == n and not (kind == 'url' and val == exp):
+            return ('from %r: the cross reference %r resolves to %s %r, the loaded inventory says %r'
+                    % (f, n, kind, val, exp))
+    return None
+
+
 def space_int_piece(name: str) -> bool:
     """the known class: a qualified name with a space separated piece, from index 2 on, that int() accepts"""
     return any(py_int(p) is not None for p in name.split(' ')[2:])
@@ -329,7 +374,9 @@ class Check(PropertyCheck):
             'arithmetic (>= 3 pieces) / a fetch that reaches _parseInventory with >= 1 line / a project with >= 1 hidden object, '
             'a name with a space, or an HTML output mode; projects run in every output mode of driver.make (--make-intersphinx, '
             '--make-html, both, --html-subject, --html-summary-pages) and with HTML each entry is compared with the pages and '
-            'anchors that run wrote; counted over distinct cases')
+            'anchors that run wrote; linker: projects whose root names do / do not share the top-level package of the entries '
+            'of the loaded inventories (one of them written by pydoctor itself), every name looked up through '
+            'docstring_linker.look_for_intersphinx and the cross reference resolution of several objects; counted over distinct cases')
     trusted_base = [
         'Coq 8.16.1 kernel (coqc; vm_compute for witnesses and for closed facts about py_int; no native_compute)',
         'no axioms (Print Assumptions: Closed under the global context for every theorem)',
@@ -680,6 +727,110 @@ class Check(PropertyCheck):
             self.count('project_mode_' + c['mode'])
         return out
 
+    def linker_cases(self) -> List[Dict[str, Any]]:
+        """projects documented with remote inventories loaded; names looked up through the real docstring linker"""
+        r = self.rng
+        out: List[Dict[str, Any]] = []
+
+        def add(c: Dict[str, Any], kind: str) -> None:
+            c['k'] = 'linker'
+            c['kind'] = kind
+            out.append(c)
+            self.count('linker_' + kind)
+        ns_a = {'project': 'A', 'mods': [['ns', '"d"\n', None, True],
+                                         ['a', 'class Thing:\n  def run(self): pass\n  level = 3\ndef helper(): pass\n', 'ns', False]]}
+        ns_b = [['ns', '"d"\n', None, True], ['b', 'from ns.a import Thing\ndef use(t):\n  "d"\nclass K:\n  def m(self): pass\n', 'ns', False]]
+        other = inv_bytes(['other.mod.func py:function 1 mod.html#$ -', 'ns.c.f py:function 1 api/ns.c.html#$ -',
+                           'ns.b.use py:function 1 elsewhere.html -', 'ns.c py:module 1 api/$.html -'])
+        # a namespace-style top-level package shared between the documented project and the loaded inventories
+        add({'mods': ns_b, 'fetches': [['http://a/api/objects.inv', ns_a]], 'queries': ['nothing', 'ns.zzz'],
+             'from': ['ns.b', 'ns.b.use', 'ns.b.K.m', 'ns']}, 'shared_root_written')
+        add({'mods': ns_b, 'fetches': [['http://a/api/objects.inv', ns_a], ['http://o/objects.inv', other.hex()]],
+             'queries': ['nothing'], 'from': ['ns.b', 'ns.b.K']}, 'shared_root_two_inventories')
+        add({'mods': [['m', 'def f(): pass\n', None, False]], 'fetches': [['http://o/objects.inv', inv_bytes(
+            ['m.ext.g py:function 1 m.ext.html#$ -', 'm py:module 1 m.html -', 'mm.h py:function 1 mm.html#h -', 'm.f py:function 1 x.html -']).hex()]],
+             'queries': ['m.nothing'], 'from': ['m', 'm.f']}, 'shared_root_module')
+        add({'mods': [['one', 'x = 1\n', None, False], ['two', '"d"\n', None, True], ['sub', 'class D: pass\n', 'two', False]],
+             'fetches': [['http://o/x/objects.inv', inv_bytes(['two.other.D py:class 1 two.other.D.html -', 'one.y py:attribute 1 one.html#y -',
+                                                             'three.z py:function 1 three.html#$ -', 'a py:class 1', 'two.bad'])],
+                         ['bad', None]],
+             'queries': [], 'from': ['two.sub.D', 'one']}, 'two_roots_bad_lines')
+        out[-1]['fetches'][0][1] = out[-1]['fetches'][0][1].hex()
+        add({'mods': [['unrelated', 'def f(): pass\n', None, False]], 'fetches': [['http://o/objects.inv', inv_bytes(VALID_LINES).hex()]],
+             'queries': ['mod.func', 'nothing'], 'from': ['unrelated', 'unrelated.f']}, 'unrelated_roots')
+        n = 12 if self.tier == 'quick' else 400
+        for _ in range(n):
+            roots = r.sample(['m', 'pkg', 'ns', 'lib', 'x y'], r.randint(1, 2))
+            mods: List[List[Any]] = []
+            froms = []
+            for rn in roots:
+                ispkg = r.random() < 0.5
+                body, locs = self.gen_body(1, False)
+                mods.append([rn, body, None, ispkg])
+                froms.append(rn)
+                froms += [rn + '.' + l for l in locs[:1]]
+                if ispkg:
+                    mods.append(['sub', 'def s(): pass\n', rn, False])
+                    froms.append(rn + '.sub')
+            lines = []
+            for _ in range(r.randint(2, 8)):
+                top = r.choice(roots + roots + ['other', 'zz'])
+                nm = top + '.' + '.'.join(r.choice(['ext', 'far', 'Cls', 'sub', 'q', 'f']) for _ in range(r.randint(0, 3)))
+                nm = nm.rstrip('.')
+                loc = r.choice([nm + '.html', 'api/' + top + '.html#$', 'p.html#' + nm, '$'])
+                lines.append('%s py:%s %s %s -' % (nm, r.choice(['function', 'class', 'module', 'method']), r.choice(['1', '-1']), loc))
+            if r.random() < 0.3:
+                lines.insert(r.randrange(len(lines) + 1), r.choice(['a py:class 1', 'x', 'a b c d', 'k std:label 1 k.html K']))
+            add({'mods': mods, 'fetches': [['http://r/d/objects.inv', inv_bytes(lines).hex()]], 'queries': ['nothing'],
+                 'from': froms[:4]}, 'generated')
+        return out
+
+    def check_linker(self, cases: List[Dict[str, Any]], out: List[Violation]) -> None:
+        impl = lib.run_impl_worker(WORKER, cases, jobs=8 if len(cases) >= 32 else 1)
+        wires = []
+        for c, r in zip(cases, impl):
+            if r.get('build_exc'):
+                wires.append(enc([8, 0, [], [], [], [], []]))
+                continue
+            fs = []
+            table: List[Any] = []
+            for (u, _), d in zip(c['fetches'], r['data']):
+                data = None if d is None else bytes.fromhex(d)
+                fs.append([u, data is not None, data or b''])
+                for e in oracle_table(data):
+                    if e not in table:
+                        table.append(e)
+            froms = []
+            for l in r['lookups']:
+                if l[0] not in froms:
+                    froms.append(l[0])
+            wires.append(enc([8, 0, fs, c.get('queries', []), table, r['root_names'], froms]))
+        mod = self.model('inventory', wires)
+        for c, r, m in zip(cases, impl, mod):
+            self.evaluations += 1
+            if r.get('build_exc'):
+                out.append(Violation('oracle', 'building the project raised ' + r['build_exc'], case=c, observed=r))
+                continue
+            status, links, reps, lookups = dec(m)
+            cm = {'exc': None if status == 0 else EXN.get(status - 1, '?'),
+                  'links': [[txt(a), txt(b), txt(x)] for a, b, x in links],
+                  'reports': [['sphinx', REPORT_FMT[k](txt(a), txt(b)), -1] for k, a, b in reps],
+                  'lookups': [[txt(f), txt(n), txt(u) if found else None] for f, n, found, u in lookups]}
+            ci = {'exc': r['exc'], 'links': r['links'], 'reports': r['reports'],
+                  'lookups': [[l[0], l[1], l[2]] for l in r['lookups']]}
+            if cm != ci:
+                out.append(Violation('correspondence', 'Model.Inventory.look_for_intersphinx / update and the real linker / '
+                                     'SphinxInventory disagree (%s)' % c.get('kind'), case=c, expected=cm, observed=ci))
+            shared = [l for l in r['lookups'] if l[1].split('.')[0] in r['root_names'] and l[1] not in r['local'] and l[2]]
+            self.count('linker_lookups', len(r['lookups']))
+            self.count('linker_lookups_resolved_under_own_root', len(shared))
+            if shared:
+                self.nontrivial.add('K' + json.dumps(c, sort_keys=True))
+            msg = oracle_linker(c, r)
+            if msg:
+                out.append(Violation('oracle', msg, case=c, observed={'root_names': r['root_names'], 'local': r['local'][:30],
+                                                                      'lookups': r['lookups'][:40], 'links': r['links'][:40]}))
+
     # ------------------------------------------------------------------ correspondence
     def check_lines(self, cases: List[Dict[str, Any]], out: List[Violation]) -> None:
         impl = lib.run_impl_worker(WORKER, cases, jobs=8)
@@ -838,6 +989,9 @@ class Check(PropertyCheck):
     def correspondence(self) -> List[Violation]:
         out: List[Violation] = []
         self.spec_validation()
+        linkers = self.linker_cases()
+        self.check_linker(linkers, out)
+        self.stats['linker_cases'] = len(linkers)
         lines = self.line_cases()
         self.check_lines(lines, out)
         fetches = self.fetch_cases([c['line'] for c in lines])
@@ -968,6 +1122,17 @@ class Check(PropertyCheck):
             if have_model:
                 print('model    :', json.dumps(canon_model_fetch(dec(self.model('inventory', [fetch_to_wire(case)])[0])))[:1500])
             msg = oracle_fetch(case, r)
+            print('property :', msg or 'holds on this input')
+            rc = 1 if msg else 0
+        elif case['k'] == 'linker':
+            print('project  :', json.dumps(case.get('mods'))[:800])
+            print('fetches  :', [[u, (d if isinstance(d, dict) else (d or '')[:60])] for u, d in case['fetches']])
+            if not r.get('build_exc'):
+                print('roots    :', r['root_names'], ' own objects:', r['local'][:30])
+                print('loaded   :', r['links'][:30], r['reports'][:5], r['exc'])
+                for l in r['lookups'][:40]:
+                    print('  from %r: look_for_intersphinx(%r) = %r; xref -> %s %r' % (l[0], l[1], l[2], l[3], l[4]))
+            msg = oracle_linker(case, r)
             print('property :', msg or 'holds on this input')
             rc = 1 if msg else 0
         elif case['k'] == 'project':
